@@ -118,7 +118,7 @@ def fresh_items():
 def replay(case):
     if case.get("kind") == "fresh":
         return freshcmp.replay(case)
-    if case.get("kind") == "toy-reload":
+    if case.get("kind") in ("toy-reload", "toy-size", "toy-asm"):
         from vf.checks import toyreload
         return toyreload.replay(case, ("execution-after-reload",))
     data = {int(k): v for k, v in case["data"].items()}
